@@ -1,5 +1,6 @@
 import Tengo.Sexp
 import Tengo.Drivers.Echo
+import Tengo.Drivers.C03
 /-!
 Line-protocol driver: one S-expression `(cmd arg…)` per input line, one answer
 line per input line. The only `partial def` of the project is the IO loop.
@@ -7,7 +8,8 @@ line per input line. The only `partial def` of the project is the IO loop.
 open Tengo
 
 def allHandlers : List (String × (List Sexp → String)) :=
-  Tengo.Drivers.Echo.handlers
+  Tengo.Drivers.Echo.handlers ++
+  Tengo.Drivers.C03.handlers
 
 def answer (line : String) : String :=
   match Sexp.parse line with
